@@ -617,3 +617,84 @@ def rule_getter_result_mutated(prog: Program, col: Collector) -> None:
                                     "(contiguous) vector the in-place update overwrites the game, so every later computation on it - the next player's Shapley value - is wrong")
     if n == 0:
         col.ok("-", "anchor files", "no in-place write into (a view of) an array returned by a getter of an argument")
+
+
+_CACHE_DECOS = ("functools.cache", "functools.lru_cache", "functools.cached_property")
+_MUTATORS = {"append", "extend", "insert", "pop", "remove", "clear", "sort", "reverse", "update", "setdefault", "popitem", "add", "discard", "fill", "resize", "put", "itemset", "sort"}
+
+
+def _cached_functions(prog: Program) -> dict[str, object]:
+    out = {}
+    for ref in prog.all_functions():
+        for d in ref.node.decorator_list:
+            target = d.func if isinstance(d, ast.Call) else d
+            if prog.resolve(ref.module, target) in _CACHE_DECOS:
+                out[ref.qual] = ref
+    return out
+
+
+def rule_cached_results_immutable(prog: Program, col: Collector) -> None:
+    """CM: what a memoised function returns is shared by all its callers - nobody changes it in place."""
+    files = scope_files(prog, col.property_id)
+    cached = _cached_functions(prog)
+    col.rule("CM", "the result of a memoised (functools.cache / lru_cache) package function is never modified in place by a caller", 0)
+    n = 0
+    # the victim decides the scope: a memoised function of the property's code, modified by ANY function of the package
+    cached = {q: r for q, r in cached.items() if r.module.rel() in files}
+    for ref in (prog.all_functions() if cached else []):
+        if "/tests/" in ref.module.rel():
+            continue
+        ft = fterms(prog, ref)
+
+        def from_cache(t) -> bool:
+            """t is (an element, slice or unpacked part of) the value of a call of a memoised package function."""
+            while isinstance(t, tuple) and t and t[0] in ("index", "attr") and not (t[0] == "attr" and t[2] in ("T",)):
+                t = t[1]
+            return isinstance(t, tuple) and len(t) == 4 and t[0] == "call" and t[1][0] == "global" and t[1][1] in cached
+        hits = []
+        for e in ft.calls():
+            if e.recv is not None and e.name in _MUTATORS and from_cache(e.recv):
+                hits.append((e, f".{e.name}() on the result of {short(e.recv, 50)}"))
+        for e in list(ft.of_kind("store")) + list(ft.of_kind("aug")):
+            tgt = e.data.get("obj") if e.data.get("index") is not None else (e.data.get("target") if e.kind == "aug" else None)
+            if tgt is not None and from_cache(tgt):
+                hits.append((e, f"in-place write into the result of {short(tgt, 50)}"))
+        for ev, what in hits:
+            n += 1
+            col.violation(ref.where(ev.node), ref.short, f"cached-result-mutated:{ref.node.name}", f"{what}: the memoised object is shared by every later call with the same arguments",
+                          "the cache hands the SAME list / array to every caller: popping or overwriting an entry changes what all later callers (other games, other computers, the "
+                          "enumeration helpers) receive for the rest of the process - results depend on call history")
+    if n == 0:
+        col.ok("-", "scope", f"{len(cached)} memoised package function(s): no caller in scope modifies a result in place")
+
+
+_DECOS_OK = ("property", "staticmethod", "classmethod", "functools.cache", "functools.lru_cache", "functools.wraps", "functools.cached_property", "abc.abstractmethod",
+             "dataclasses.dataclass", "typing.runtime_checkable", "typing.overload", "typing.final", "functools.total_ordering", "contextlib.contextmanager")
+
+
+def rule_decorators_transparent(prog: Program, col: Collector) -> None:
+    """DEC: a decorator on a function of the property's anchor files is one whose effect is known."""
+    files = set(anchor_files(col.property_id))
+    col.rule("DEC", "functions of the anchor files carry only decorators whose effect is known (property / staticmethod / classmethod / cache / dataclass ...)", 0)
+    n = 0
+    for ref in prog.all_functions():
+        if ref.module.rel() not in files:
+            continue
+        for d in ref.node.decorator_list:
+            target = d.func if isinstance(d, ast.Call) else d
+            if isinstance(target, ast.Attribute) and target.attr in ("setter", "getter", "deleter"):
+                continue
+            q = prog.resolve(ref.module, target) or src(target)
+            if q in _DECOS_OK:
+                continue
+            n += 1
+            if q in ("numpy.errstate",) and isinstance(d, ast.Call) and any(isinstance(k.value, ast.Constant) and k.value.value == "raise" for k in d.keywords):
+                col.violation(ref.where(d), ref.short, f"errstate-raise:{ref.node.name}", f"@{src(d)[:50]} turns floating-point conditions inside {ref.node.name} into exceptions",
+                              "`all='raise'` (or under= / over= / invalid='raise') makes harmless events - a float32 underflow to 0 for tiny or widely scaled legal inputs - abort "
+                              "the computation half-way with its state partly updated, where the plain code returns the correct result")
+            elif q.startswith("incomplete_cooperative."):
+                col.undecidable(ref.where(d), ref.short, f"decorator @{src(d)[:50]} wraps {ref.node.name}: a package decorator the rules do not read through")
+            else:
+                col.undecidable(ref.where(d), ref.short, f"decorator @{src(d)[:50]} on {ref.node.name}: effect not known")
+    if n == 0:
+        col.ok("-", "anchor files", "only decorators with a known effect")
